@@ -74,6 +74,20 @@ func (i *insertOnUpdateExecutor) ExecContext(ctx context.Context, f exec.Callbac
 		return nil, err
 	}
 
+	if len(beforeImage.Rows) > 0 && len(afterImage.Rows) > len(beforeImage.Rows) {
+		// some value groups updated existing rows and others inserted new ones: one UPDATE item for the
+		// rows that existed and one INSERT item for the new rows, so that a rollback also removes the latter
+		updated, inserted := splitAfterImageByBeforeImage(beforeImage, afterImage)
+		beforeImage.SQLType = types.SQLTypeUpdate
+		updated.SQLType = types.SQLTypeUpdate
+		inserted.SQLType = types.SQLTypeInsert
+		i.execContext.TxCtx.RoundImages.AppendBeofreImage(beforeImage)
+		i.execContext.TxCtx.RoundImages.AppendAfterImage(updated)
+		i.execContext.TxCtx.RoundImages.AppendBeofreImage(&types.RecordImage{TableName: afterImage.TableName, SQLType: types.SQLTypeInsert})
+		i.execContext.TxCtx.RoundImages.AppendAfterImage(inserted)
+		return res, nil
+	}
+
 	if len(beforeImage.Rows) > 0 {
 		beforeImage.SQLType = types.SQLTypeUpdate
 		afterImage.SQLType = types.SQLTypeUpdate
@@ -85,6 +99,32 @@ func (i *insertOnUpdateExecutor) ExecContext(ctx context.Context, f exec.Callbac
 	i.execContext.TxCtx.RoundImages.AppendBeofreImage(beforeImage)
 	i.execContext.TxCtx.RoundImages.AppendAfterImage(afterImage)
 	return res, nil
+}
+
+// splitAfterImageByBeforeImage divides the rows of the after image into those whose primary key is in the
+// before image (updated rows) and the others (inserted rows)
+func splitAfterImageByBeforeImage(beforeImage, afterImage *types.RecordImage) (updated, inserted *types.RecordImage) {
+	pkOf := func(row types.RowImage) string {
+		var sb strings.Builder
+		for _, col := range row.PrimaryKeys(row.Columns) {
+			sb.WriteString(fmt.Sprintf("%s=%v;", strings.ToLower(col.ColumnName), col.Value))
+		}
+		return sb.String()
+	}
+	existed := make(map[string]struct{}, len(beforeImage.Rows))
+	for _, row := range beforeImage.Rows {
+		existed[pkOf(row)] = struct{}{}
+	}
+	updated = &types.RecordImage{TableName: afterImage.TableName, TableMeta: afterImage.TableMeta}
+	inserted = &types.RecordImage{TableName: afterImage.TableName, TableMeta: afterImage.TableMeta}
+	for _, row := range afterImage.Rows {
+		if _, ok := existed[pkOf(row)]; ok {
+			updated.Rows = append(updated.Rows, row)
+		} else {
+			inserted.Rows = append(inserted.Rows, row)
+		}
+	}
+	return updated, inserted
 }
 
 // beforeImage build before image
